@@ -262,6 +262,9 @@ def c09_state(ctx):
                 # the new state is computed under Running and stored afterwards through an Option: require the computation under Running
                 aggs = [b for b, si2, r in aggregates_of(fn, "popen::ChildState") if r["variant"] == "Finished"]
                 ok = bool(aggs) and all(dominated_by_edges(fn, b, e) for b in aggs)
+                if not ok and aggs:
+                    # decided per state: with the state anything but Running the store is not reached (whatever carries the news there)
+                    ok = all(bb not in M.Explore(fn, assume={self_field("child_state"): v_}).blocks for n_, v_ in CHILD_STATE.items() if n_ != "Running")
                 ctx.ob("R09.1w", "store:Finished@%s" % p, ok, fn.loc(bb), "windows: Finished is computed only under the Running edge of self.child_state")
             elif vs == {"Running"}:
                 ctx.ob("R09.1w", "store:Running@%s" % p, p.endswith("os_start"), fn.loc(bb), "windows: Running stored only in os_start")
@@ -606,5 +609,12 @@ def c10_terminate(ctx):
         ctx.ob("R10.6", "terminate-error-policy", dominated_by_edges(ot, bb, ne_t + act_t), ot.loc(bb),
                "the TerminateProcess error is returned only if it is not ERROR_ACCESS_DENIED, or the exit code says STILL_ACTIVE; ACCESS_DENIED on an exited process means 'already gone'")
     fin = [b for b, si, r in aggregates_of(ot, "popen::ChildState") if r["variant"] == "Finished"]
-    ctx.ob("R10.6", "exited-child-recorded", bool(fin) and bool(act_f) and all(dominated_by_edges(ot, b, act_f) for b in fin), ot.loc(fin[0] if fin else 0),
+    is_active_test = lambda c: c[0] == "bin" and c[1] in ("Eq", "Ne") and const_of(c[3]) == 259 and M.contains(c[2], lambda u: u[0] == "call" and u[1] == "win32::GetExitCodeProcess")
+    def af_active(t_):
+        if t_ and is_active_test(M.noref(t_)):
+            return 1 if M.noref(t_)[1] == "Eq" else 0
+        return None
+    rec_eval = bool(fin) and any(ot.blocks[b_]["term"]["k"] == "switch" and is_active_test(M.noref(M.switch_term(ot, T, b_))) for b_ in ot.live_blocks()) and \
+        not (set(fin) & M.Explore(ot, assume_fn=af_active).blocks)
+    ctx.ob("R10.6", "exited-child-recorded", (bool(fin) and bool(act_f) and all(dominated_by_edges(ot, b, act_f) for b in fin)) or rec_eval, ot.loc(fin[0] if fin else 0),
            "Finished(Exited(rc)) is recorded exactly when GetExitCodeProcess reports something other than STILL_ACTIVE")
